@@ -131,5 +131,6 @@ def check(tier):
     ]
     for name, m in mut:
         ck.add_mutant(name, m, "documents", "harness.C13", "import_job", dict(cases=cs[:40]))
+    ck.validate = ['sbml']
     ck.run()
     return ck.finish(replay=REPLAY)
